@@ -121,6 +121,22 @@ func (r *run) crashImages(root, template string, log []simos.Effect, seed uint64
 			return
 		}
 	}
+	// prefix truncations of the newest block DATA file (the index keeps the records of the blocks that lost
+	// their bytes): a few bytes, half a block, one block and a bit
+	drng := hx.NewRng(seed ^ 0xDA7A)
+	dcuts := []int{1 + drng.Intn(40), 200 + drng.Intn(600), 1500 + drng.Intn(9000), 12000 + drng.Intn(40000)}
+	if want >= 0 {
+		k := drng.Intn(3)
+		dcuts = []int{dcuts[k], dcuts[3]} // quick tier: one of the small cuts, and the big one
+	}
+	for _, c := range dcuts {
+		r.dataCut = c
+		ok := r.recoverImage(root, template, log, len(log), -1, final)
+		r.dataCut = 0
+		if !ok {
+			return
+		}
+	}
 	// prefix truncations of the append-only block index (the data file keeps its - then unreferenced - tail):
 	// the last records are lost, at record boundaries and inside a record
 	idx, err := os.ReadFile(filepath.Join(r.dir, "blockchain.new"))
@@ -149,20 +165,6 @@ func (r *run) crashImages(root, template string, log []simos.Effect, seed uint64
 			continue
 		}
 		if !r.recoverImage(root, template, log, len(log), c, final) {
-			return
-		}
-	}
-	// prefix truncations of the newest block DATA file (the index keeps the records of the blocks that lost
-	// their bytes): a few bytes, half a block, one block and a bit
-	dcuts := []int{1 + rng.Intn(40), 200 + rng.Intn(600), 1500 + rng.Intn(9000)}
-	if want >= 0 {
-		dcuts = dcuts[rng.Intn(3):][:1]
-	}
-	for _, c := range dcuts {
-		r.dataCut = c
-		ok := r.recoverImage(root, template, log, len(log), -1, final)
-		r.dataCut = 0
-		if !ok {
 			return
 		}
 	}
@@ -314,7 +316,52 @@ func (r *run) recoverImage(root, template string, log []simos.Effect, k int, tru
 		}
 		sub.n.Ch.BlockIndexAccess.Unlock()
 		// stored valid blocks with accepted ancestry may already beat the tip only if the node did not re-apply them
-		for _, bi := range r.delivOrder {
+		order := r.delivOrder
+		if r.dataCut > 0 {
+			// The blocks that lost bytes do not come back as they were stored the first time: first the biggest
+			// block the node can take (one record where several may have been lost, bytes that may reach beyond
+			// the old end of the file), then a clean restart - whatever the cut left behind in the index must
+			// not be taken for a stored block - then the rest.
+			big := -1
+			for _, bi := range order {
+				ln := r.nodes[bi]
+				if ln == nil || !ln.Valid() || sub.status[ln.Hash] == 1 || ln.Parent == nil || sub.status[ln.Parent.Hash] != 1 {
+					continue
+				}
+				if big < 0 || len(ln.Blk.Bytes()) > len(r.nodes[big].Blk.Bytes()) {
+					big = bi
+				}
+			}
+			if big >= 0 {
+				sub.now = time.Now().Unix()
+				sub.deliver(big, fmt.Sprintf("re-feeding block[%d] (the biggest one first) after crash recovery", big))
+				if !sub.bad {
+					th0, _ := sub.n.Tip()
+					sub.n.Close()
+					sub.boot()
+					out.Probe("restart_after_partial_refeed", 1)
+					if th1, _ := sub.n.Tip(); th1 != th0 {
+						r.viol("crash.second-restart", "after the recovery of a truncated data file, one re-fed block and a clean restart the tip is %s, before the restart it was %s. %s", hs(th1), hs(th0), desc)
+						ok = false
+						return
+					}
+					sub.n.Ch.BlockIndexAccess.Lock()
+					for _, ln := range r.nodes {
+						if ln == nil || sub.status[ln.Hash] != 0 {
+							continue
+						}
+						if nd, present := sub.n.Ch.BlockIndex[bidx(ln.Hash)]; present && nd.BlockSize > 0 {
+							sub.n.Ch.BlockIndexAccess.Unlock()
+							r.viol("crash.second-restart", "after the recovery of a truncated data file, one re-fed block and a clean restart the index lists block %s (height %d), which has not been stored since the recovery: a record the truncation left behind. %s", hs(ln.Hash), ln.Height, desc)
+							ok = false
+							return
+						}
+					}
+					sub.n.Ch.BlockIndexAccess.Unlock()
+				}
+			}
+		}
+		for _, bi := range order {
 			if sub.bad {
 				break
 			}
